@@ -166,6 +166,14 @@ impl Router {
             })
             .unwrap_or((false, false, false, None, None));
 
+        if !frontend_should_stick {
+            // A kept-alive connection may have served a sticky cluster before:
+            // do not announce that cluster's sticky cookie on the responses of
+            // a cluster that does not stick, whether the backend connection is
+            // reused or freshly selected below.
+            stream_context.sticky_session = None;
+        }
+
         // ── Legacy `cluster.https_redirect` short-circuit ──
         //
         // Resolve the legacy HTTP→HTTPS redirect BEFORE per-(cluster,
@@ -896,11 +904,6 @@ impl Router {
                     .clone()
                     .unwrap_or_else(|| backend.borrow().backend_id.to_owned()),
             );
-        } else {
-            // A kept-alive connection may have served a sticky cluster before:
-            // do not announce that cluster's sticky cookie on the responses of
-            // a cluster that does not stick.
-            context.sticky_session = None;
         }
 
         context.backend_id = Some(backend.borrow().backend_id.to_owned());
